@@ -205,6 +205,19 @@ def stream_typed_ranking(ctx):
                                 rec, rank_fp(dm[0, j], k))
         if dm[0, 3] > 0.25:
             ctx.oracle_fail(f"independent column scores dependence {dm[0, 3]:.3f} > 0.25 with a timestamp column (k={k}, n={n})", rec, "ranking")
+        # an integer column of two categories whose first ten rows are rare far-away codes on both sides (two rows per code, spread over y), y independent
+        cats = R.choice([[1, 3], [1, 3], [0, 1, 2]])
+        xs = [R.choice(cats) for _ in range(n)]; ys = [R.randrange(k) for _ in range(n)]
+        far = [1000, 1000, 300, 300, 150, 150, 70, 70, -1000, -1000]
+        xs[:10] = far; ys[:10] = [v % k for v in (0, 1, 2, 3, 4, 5, 6, 7, 0, 7)]
+        dfo = pd.DataFrame({"x": xs, "y": ys})
+        convo = [get_convertor(dfo, c) for c in dfo.columns]
+        Fo = Forest(AnonymizationParams(salt=R.getrandbits(64).to_bytes(8, "little")), BucketizationParams(), UniquePidCountersFactory(),
+                    pd.DataFrame({"id": range(n)}), apply_convertors(convo, dfo))
+        do = float(measure_all(Fo).dependency_matrix[0, 1]); rec["dep(x with rare far codes first, indep y)"] = round(do, 3)
+        if do > 0.25:
+            ctx.oracle_fail(f"independent {k}-category column scores dependence {do:.3f} > 0.25 with a {len(cats)}-category integer column whose first ten rows are rare "
+                            f"far-away codes (n={n})", rec, "ranking")
         for j, nm in ((0, "timestamp"), (1, "string"), (2, "int"), (3, "int")):
             rec[f"dep({df.columns[j]},p)"] = round(float(dm[j, 4]), 3)
             if dm[j, 4] > 0.25:
